@@ -338,8 +338,17 @@ func buildC16(tier string) *core.Plan {
 			dir := scratchDir()
 			defer os.RemoveAll(dir)
 			names := []string{"a.yaml", "b.json", "c.toml"}
+			exts := []string{"yaml", "json", "toml"}
+			switch i % 3 {
+			case 1:
+				// the same file name in three directories
+				names, exts = []string{"prod/config.yaml", "staging/config.yaml", "dev/config.yaml"}, []string{"yaml", "yaml", "yaml"}
+			case 2:
+				names = []string{"x/in.yaml", "y/in.json", "in.toml"}
+			}
 			for k, d := range ins {
-				if writeDoc(dir, names[k], names[k][2:], d) != nil {
+				os.MkdirAll(filepath.Dir(filepath.Join(dir, names[k])), 0o755)
+				if writeDoc(filepath.Dir(filepath.Join(dir, names[k])), filepath.Base(names[k]), exts[k], d) != nil {
 					return
 				}
 			}
